@@ -46,7 +46,7 @@ CHECKS = [
        "DESIGN.md 4 C05"),
     _c("C16", E1,
        "symbolic execution (CrossHair+z3) of opcodes.build_opcodes, blocks.add_pop_block_targets/compute_order and cfg_utils.order_nodes over symbolic disassemblies and digraphs",
-       "Bounded solver-certified exhaustive check on a superset of compiler output: for every bounded instruction list with symbolic jump targets, inline-cache gaps and exception-table entries, the opcode list is link-consistent with resolved jumps and correctly placed synthetic block markers, blocks partition the instructions, jump targets start blocks and the order lists every instruction-level reachable block once after a predecessor; for every digraph on N nodes order_nodes / compute_predecessors meet their contracts. One recorded finding (handler reachable only through SETUP_EXCEPT_311) is printed as KNOWN-FINDING and excluded.",
+       "Bounded solver-certified exhaustive check on a superset of compiler output: for every bounded instruction list with symbolic jump targets, inline-cache gaps and exception-table entries, the opcode list is link-consistent with resolved jumps and correctly placed synthetic block markers, blocks partition the instructions, jump targets start blocks and the order lists every instruction-level reachable block once after a predecessor; for every digraph on N nodes order_nodes / compute_predecessors meet their contracts; the same block-graph checks run on real CPython output for a generated program grammar. One recorded finding (handler reachable only through SETUP_EXCEPT_311) is printed as KNOWN-FINDING and excluded.",
        "Trusted: pycnite dataclasses, CrossHair, z3. Assumed compiler guarantees listed in evidence. Outside: async/generator surgery (SEND, GET_ANEXT), real compiler output, pycnite decoding.",
        "DESIGN.md 4 C16"),
     _c("C04", E1,
@@ -61,7 +61,7 @@ CHECKS = [
        "DESIGN.md 4 C11"),
     _c("C03", E1,
        "symbolic execution (CrossHair+z3) of _LineSet and of a real Director built from symbolic comment-parser output; with/without-directive differential over a symbolic raw error",
-       "Bounded solver-based check at the Director level: line numbers are symbolic integers; for every bounded configuration of directives, statement/call/function ranges and a symbolic raw error, appending a trailing disable (or type: ignore) on the reported line silences that error and changes nothing else except through the documented start-line mechanism. One recorded finding (implicit-return line shift) is printed as KNOWN-FINDING and excluded.",
+       "Bounded solver-based check at the Director level: line numbers are symbolic integers; for every bounded configuration of directives, statement/call/function ranges and a symbolic raw error, appending a trailing disable (or type: ignore) on the reported line silences that error and changes nothing else except through the documented start-line mechanism; a second group of jobs builds both Directors from generated source text through the real comment parser. One recorded finding (implicit-return line shift) is printed as KNOWN-FINDING and excluded.",
        "Trusted: CrossHair int/dict models, z3. Assumed: comment-parser output invariants and the compiler's implicit-return line (listed in evidence). Outside: directors/parser.py, the VM's choice of error line, `disable=*` as the appended directive.",
        "DESIGN.md 4 C03"),
     _c("C10", E1,
@@ -76,7 +76,7 @@ CHECKS = [
        "DESIGN.md 4 C12"),
     _c("C13", E1,
        "symbolic execution (CrossHair+z3) of SignedFunction._map_args and PyTDSignature._map_args over all bounded (signature, call) shapes, differential against real CPython calls",
-       "Bounded solver-certified exhaustive check: for every signature with up to MAXP parameters of each kind and every call shape within the bounds, pytype fails the call iff CPython raises TypeError when a real function with that signature is called, and on success every parameter holds the argument CPython binds.",
+       "Bounded solver-certified exhaustive check: for every signature with up to MAXP parameters of each kind and every call shape within the bounds, pytype fails the call iff CPython raises TypeError when a real function with that signature is called, and on success every parameter holds the argument CPython binds; the same call shapes are also passed in the f(*tuple, **dict) form through the real Args.simplify.",
        "Trusted: CPython call binding (oracle), CrossHair, z3. Real Context created once per worker; conversion/formatting helpers run untraced. Outside: */** at the call site, bound methods, overloads.",
        "DESIGN.md 4 C13"),
     _c("C19", E1,
